@@ -67,7 +67,7 @@ func init() {
 		Rule:   "cases = generated hands in which every bet/raise decision draws its amount from all classes (negative, zero, below/at the wager, undersized, minimum, above minimum, at/above the stack, +-2^62); classes:request:* is the histogram; non-trivial = hand with at least one sized request",
 		Stages: []stage{hand(8000, 300000)}}
 	plans["C13"] = plan{Level: "exploration", Assume: handAssume,
-		Rule:   "cases = forced-bet configurations driven Start..PayBlinds: exhaustive grid (n<=4, ante<=2, SB<=1, BB<=2, dealer blind 0/2, bankrolls 1..5, all buttons, live/dead SB) + rapid G-CFG; non-trivial = a stack within 1 chip of a forced amount it owes",
+		Rule:   "cases = forced-bet configurations driven Start..PayBlinds: exhaustive grid (n<=4, ante<=2, SB<=2, BB 1..3, dealer blind 0/2, bankrolls 1..5, all buttons, live/dead SB) + rapid G-CFG; non-trivial = a stack within 1 chip of a forced amount it owes",
 		Stages: []stage{{Name: "grid", Harness: "hand", Test: "TestForcedGrid", Mode: "enum", Shards: 1}, {Name: "forced", Harness: "hand", Test: "TestForcedRapid", Mode: "rapid", Quick: 20000, Thorough: 1000000}, hand(2000, 50000)}}
 	plans["C14"] = plan{Level: "exploration", Assume: handAssume,
 		Rule:   "cases = generated hands (all endings), card accounting checked after every operation; ShuffleCards on drawn sub-decks; non-trivial = hand that reached the flop; shuffle input of >= 2 cards",
@@ -83,4 +83,41 @@ func init() {
 	c16.Stages = append(c16.Stages, stage{Name: "hands", Harness: "hand", Test: "TestHand", Mode: "rapid", Quick: 4000, Thorough: 80000})
 	c16.Assume = append(c16.Assume, handAssume...)
 	plans["C16"] = c16
+
+	seatAssume := []string{
+		"operations are Join (specific / any), Seat, Reserve, Leave, Next on seat ids incl. out-of-range ones; query methods are called the way table/ calls them (GetPlayableSeats only once a dealer exists)",
+		"Join(any) picks with the global math/rand and map order: the oracle accepts any empty non-reserved seat and the history is canonicalised to a drawn seat (Leave+Join, state-equivalent)",
+	}
+	hist := func(q, th int) stage {
+		return stage{Name: "histories", Harness: "seats", Test: "TestSeatHistories", Mode: "rapid", Quick: q, Thorough: th}
+	}
+	reach := stage{Name: "reachable-states", Harness: "seats", Test: "TestReachableStates", Mode: "enum", Shards: 1}
+	plans["C08"] = plan{Level: "exploration", Assume: seatAssume,
+		Rule:   "cases = (a) every transition from every seat-manager state reachable with <= 4 seats (thorough 5), each path re-executed on the real implementation; (b) rapid histories on 2..10 seats; (c) newcomer-between scenarios (k seated players, j hands, a newcomer on a drawn empty seat strictly between dealer and big blind, then 2*max hands); non-trivial = Next() success with a non-playable seat among the first three clockwise from the dealer; scenario with a valid in-between seat",
+		Stages: []stage{reach, hist(200000, 4000000), {Name: "newcomer", Harness: "seats", Test: "TestNewcomerBetween", Mode: "rapid", Quick: 60000, Thorough: 1000000}}}
+	plans["C17"] = plan{Level: "exploration", Assume: seatAssume,
+		Rule:   "cases = every transition from every reachable state with <= 4 seats (thorough 5) + rapid histories; at every Next(): button = first seat able to play clockwise after the old dealer, refusal exactly with the insufficient-players error; non-trivial = Next() where the old dealer can no longer play or an occupied non-playable seat lies between old and new dealer",
+		Stages: []stage{reach, hist(300000, 5000000)}}
+	plans["C18"] = plan{Level: "exploration", Assume: append([]string{"the goroutine schedule of the race stage is not owned by the harness (stress + race detector)"}, seatAssume...),
+		Rule:   "cases = every transition from every reachable state with <= 4 seats (thorough 5) + rapid histories with out-of-range ids (occupancy model, recover() around every call) + concurrent-join cases under the race detector (drawn table size, 2..32 goroutines, specific/any targets, pre-seated players); non-trivial = history with a failed join and a leave; race case with more goroutines than free seats",
+		Stages: []stage{reach, hist(300000, 5000000), {Name: "join-race", Harness: "seats", Test: "TestJoinRace", Mode: "race", Race: true, Quick: 3000, Thorough: 40000}}}
+
+	mttAssume := []string{
+		"tables follow the regulator's instructions: new players are seated, exactly the requested number of players is released through ReleasePlayers, a broken table hands everybody back (what the repository's own tests do)",
+		"the waiting queue is read through the build-tag-guarded hook regulator.VerifWaitingQueue",
+		"the regulator iterates Go maps: oracles hold for every iteration order, the observed history is recorded, replay retries",
+	}
+	mh := func(q, th int) stage {
+		return stage{Name: "histories", Harness: "mtt", Test: "TestHistories", Mode: "rapid", Quick: q, Thorough: th}
+	}
+	grid := stage{Name: "settings-grid", Harness: "mtt", Test: "TestSettingsGrid", Mode: "enum", Shards: 1}
+	plans["C09"] = plan{Level: "exploration", Assume: mttAssume,
+		Rule:   "cases = tournament histories over a world model (settings 2<=min<=max<=10, a third at the default 9/6; AddPlayers batches 0..3*max, status steps, SyncState with eliminations on drawn tables, unknown-table calls, registrations after the deadline) with membership and counters checked after every call, + the settings grid; non-trivial = history with at least one sync that released, received or broke",
+		Stages: []stage{grid, mh(40000, 1000000)}}
+	plans["C19"] = plan{Level: "exploration", Assume: mttAssume,
+		Rule:   "cases = the complete settings grid (2<=min<=max<=10, 0..6*max registrants, all at once before the start / one by one / in batches of 3 / of max after it; 3 repetitions each because of map order) + tournament histories; capacity and start conditions are checked inside the callbacks; non-trivial = settings other than 9/6 with >= 2 tables opened",
+		Stages: []stage{grid, mh(40000, 1000000)}}
+	plans["C20"] = plan{Level: "exploration", Assume: mttAssume,
+		Rule:   "cases = from the end state of every generated history (and every grid point) sweeps of SyncState(t,0) over all tables in a drawn order, instructions carried out, until a sweep asks for nothing; bound max(20, 2*tables+10) sweeps; non-trivial = settling run with at least one move; classes sweeps-to-settle:N = distribution of the number of sweeps needed",
+		Stages: []stage{grid, mh(40000, 1000000)}}
 }
